@@ -6,23 +6,19 @@ Tie, two layers:
    transcoding chains, each compared with the extracted model;
  (wide layer) modules over the whole type algebra (lib/widegen.py) with values
    from asn_random_fill: the property evaluated on the implementation alone."""
-import sys, os, re
+import sys, os, re, time
 sys.path.insert(0, os.path.join(os.path.dirname(os.path.abspath(__file__)), "..", "lib"))
 from vlib import *
 from modcorpus import *
-from widegen import WGen
+from concurrent.futures import ThreadPoolExecutor
 import c02 as C02
 
 SYNS = ["der", "cper", "coer", "xer", "cxer"]
-# The wide layer runs once lib/widefind.py (classifier of the known defects of the
-# wide algebra, built from a triage over many seeds) exists; until then only the
-# modelled algebra is exercised.
-try:
-    import widefind
-    WIDE, WIDE_FEATURES = True, widefind.FEATURES
-except ImportError:
-    widefind = None
-    WIDE, WIDE_FEATURES = False, []
+TIMES = {}
+# The wide layer: lib/widefind.py = AST-returning generator over the wide algebra + the classifier of the known
+# defects met there (triage: notes/design/C01-wide.md); harness/moddrv_wide.inc = its driver commands.
+import widefind
+WIDE, WIDE_FEATURES = True, widefind.FEATURES
 
 
 def classify_rt(run, m, tn, line, out, typetext, tainted):
@@ -88,6 +84,106 @@ def wide_fixed_int(tree):
     return False
 
 
+def wide_one(m, seeds, nvals):
+    """one wide module: values from asn_random_fill that pass the DEEP constraint walk (`wfill`), the round-trip
+    battery on each (`wrt`); a command that kills or hangs the driver is re-run per syntax (`rt1`).
+    Returns (stats, [(typename, value, facts, syntax, status, stderr, command)])"""
+    stats, res = {}, []
+
+    def cnt(k, n=1):
+        stats[k] = stats.get(k, 0) + n
+    if m.get("fixed_values"):       # the hand-made boundary module: values given as DER, validated by the same deep walk
+        lines = ["facts %s der %s" % (tn, v) for tn in sorted(m["fixed_values"]) for v in m["fixed_values"][tn]]
+        outs, ev = widefind.run_robust(m["exe"], lines)
+        outs = ["OK %s ck=0 %s" % (l.split()[3], o) if o.startswith("dck=") else o for l, o in zip(lines, outs)]
+        for l, o in zip(lines, outs):
+            if " dck=0 " not in o:
+                res.append((l.split()[1], l.split()[3], "-", "der", "BOUNDARY-VALUE-REJECTED:" + o.replace(" ", "_"), "", l))
+    else:
+        lines = ["wfill %s %d %d" % (tn, seeds.below(100000), seeds.choice([8, 32, 64, 200])) for tn, _ in m["defs"] for _ in range(nvals)]
+        # after one hang of asn_random_fill on a type the remaining draws for that type are skipped
+        outs, ev = widefind.run_robust(m["exe"], lines, line_timeout=5, hang_key=lambda l: l.split()[1])
+    # a driver death or hang inside asn_random_fill (assertion `range < intmax_max' on INTEGER (0..9223372036854775807); unbounded
+    # self-recursion on recursive types) is a defect of the value SOURCE, not of a codec: the value is unusable
+    cnt("wide_fill_crash", len([e for e in ev if e[1] != "EXIT"]))
+    vals = {}
+    for l, o in zip(lines, outs):
+        f = o.split()
+        if len(f) == 5 and f[0] == "OK" and f[1] != "ENCFAIL" and f[2] == "ck=0" and f[3] == "dck=0":
+            vals[(l.split()[1], f[1])] = f[4].split("=", 1)[1]
+        elif len(f) == 5 and f[0] == "OK" and f[1] == "ENCFAIL" and f[3] == "dck=0":
+            res.append((l.split()[1], "", f[4].split("=", 1)[1], "der", "FILL-ENCFAIL", "", l))   # valid value, DER encoder fails
+        else:
+            cnt("wide_value_unusable")
+    keys = sorted(vals)
+    l2 = ["wrt %s der %s" % k for k in keys]
+    outs, ev = widefind.run_robust(m["exe"], l2)
+    evd = {i: (kind, err) for i, kind, rc, err in ev if kind != "EXIT"}
+    for i, kind, rc, err in ev:
+        if kind == "EXIT":
+            res.append((keys[-1][0] if keys else "-", "", "-", "all", "EXIT", err, "(driver exit status %s after the last command: leak report)" % rc))
+    for i, (k, l, o) in enumerate(zip(keys, l2, outs)):
+        tn, v = k
+        facts = vals[k]
+        cnt("wide_rt")
+        if i in evd:
+            l3 = ["rt1 %s der %s %s" % (tn, v, s) for s in SYNS]
+            o3, ev3 = widefind.run_robust(m["exe"], l3)
+            e3 = {j: (kind, err) for j, kind, rc, err in ev3 if kind != "EXIT"}
+            parts = []
+            for j, (s, oo) in enumerate(zip(SYNS, o3)):
+                if j in e3:
+                    res.append((tn, v, facts, s, e3[j][0], e3[j][1], l3[j]))
+                else:
+                    parts.append(oo)
+            if not e3:      # died only when the five ran together
+                res.append((tn, v, facts, "all", evd[i][0], evd[i][1], l))
+        else:
+            parts = [p for p in o.split() if not p.startswith(("dck=", "facts="))]
+        for part in parts:
+            if "=" not in part:
+                res.append((tn, v, facts, "?", "BADOUT:" + part, "", l))
+                continue
+            syn, st = part.split("=", 1)
+            if st.startswith("NL:"):
+                res.append((tn, v, facts, syn, "NL", "", l))
+                st = st[3:]
+            cnt("rt_%s_%s" % (syn, st.split(":")[0]))
+            if st != "OK":
+                res.append((tn, v, facts, syn, st, "", l))
+    return stats, res, l2, outs[:1]
+
+
+def wide_layer(run, wmods, wrng, tier):
+    built = [m for m in wmods if m.get("exe")]
+    run.count("wide_module_not_built", len(wmods) - len(built))     # C10's business (and its findings); not a C01 statement
+    for m in wmods:
+        if m.get("fixed_values") and not m.get("exe"):               # ... except for the hand-made module, which is known to build
+            run.violation("build:module", {"what": "the hand-made boundary module of the wide layer was rejected or its code does not compile", "module": m["text"],
+                                           "asn1c_out": (m.get("asn1c_out") or "")[-1200:], "build_log": (m.get("build_log") or "")[-1200:]})
+    subs = [Rng(wrng.next()) for _ in built]
+    nvals = 12 if tier == "quick" else 16
+    with ThreadPoolExecutor(max_workers=8) as ex:
+        results = list(ex.map(lambda a: wide_one(a[0], a[1], nvals), zip(built, subs)))
+    for m, (stats, res, cases, first) in zip(built, results):
+        for k, n in stats.items():
+            run.count(k, n)
+        for l in cases:
+            run.case(m["name"] + ":" + l)
+        for tn, v, facts, syn, st, err, cmd in res:
+            fid = widefind.classify(m, tn, syn, st, err, [] if facts in ("-", "") else facts.split(","))
+            if fid:
+                run.known_finding(fid, cmd)
+            else:
+                kind = "crash:C01-wide(%s)" % syn if st in ("CRASH", "HANG", "EXIT") else "oracle:roundtrip-wide(%s)" % syn
+                run.violation(kind, {"what": "wide layer: encode-then-decode does not return the value: " + st, "module": m["text"], "type": tn,
+                                     "type_text": widefind.render(m["asts"][tn]) if tn in m["asts"] else None, "value_der": v, "value_facts": facts,
+                                     "syntax": syn, "status": st, "command_line": cmd, "stderr_tail": err[-6500:],
+                                     "replay": "build the module with harness/moddrv.c + harness/moddrv_wide.inc (lib/modbuild.build_modules(moddrv_extra=...)) and feed the command line"})
+        if cases:
+            run.sample({"wide_module": m["text"][:300], "cmd": cases[0][:120], "c": first[0] if first else None})
+
+
 def main(tier):
     run = Run("C01", tier)
     rng = Rng(run.seed)
@@ -102,9 +198,11 @@ def main(tier):
         mods, cases = build_corpus(run, rng, nm, nt, nv, tier)
         wmods = []
         if WIDE:
-            wg = WGen(rng, features=WIDE_FEATURES)
-            wmods = [wg.module("W%d" % i, 5) for i in range(8 if tier == "quick" else 40)]
-            build_modules(wmods, tag="wide")
+            wrng = Rng(rng.next())
+            wmods = [widefind.boundary_module()] + widefind.generate(wrng, 14 if tier == "quick" else 60, 5)
+            t0 = time.time()
+            build_modules(wmods, tag="wide", moddrv_extra=widefind.EXTRA)
+            TIMES["wide_build_s"] = round(time.time() - t0, 1)
     except BuildError as e:
         run.violation("build", {"what": str(e)[-2500:]}, no_input=True)
         return run.finish("proof", (nthm, ndis))
@@ -190,41 +288,19 @@ def main(tier):
         if cs:
             run.sample({"type": cs[0]["ts"], "value": cs[0]["vs"][:80], "rt": "rt %s der %s" % (cs[0]["tn"], cs[0]["der"][:60])})
     # ------------------------------------------------------------ wide layer
-    for m in wmods:
-        if not m.get("exe"):
-            run.count("wide_module_not_built")     # C10's business (and its findings); not a C01 statement
-            continue
-        lines = []
-        for tn, _ in m["defs"]:
-            for k in range(4 if tier == "quick" else 12):
-                lines.append("rfill %s %d %d" % (tn, rng.below(100000), rng.choice([8, 32, 64, 200])))
-        out = run_mod(run, m, lines, "C01-wide-rfill")
-        l2 = []
-        for l, o in zip(lines, out):
-            f = o.split()
-            if len(f) == 3 and f[0] == "OK" and f[1] != "ENCFAIL" and f[2] == "ck=0":
-                l2.append("rt %s der %s" % (l.split()[1], f[1]))
-            else:
-                run.count("wide_value_unusable")
-        l2 = sorted(set(l2))
-        out2 = run_mod(run, m, l2, "C01-wide-rt")
-        for l, o in zip(l2, out2):
-            run.case(l)
-            run.count("wide_rt")
-            classify_rt(run, m, l.split()[1], l, o, m["text"], {"semi_lb": bool(re.search(r"\(\s*[1-9-]\d*\.\.MAX\)", m["text"])), "choiceref": False,
-                                                                    "wide_fixed_int": "9223372036854775807" in m["text"]})
-        if l2:
-            run.sample({"wide_module": m["text"][:300], "cmd": l2[0][:120], "c": out2[0]})
+    t0 = time.time()
+    wide_layer(run, wmods, wrng if wmods else rng, tier)
+    TIMES["wide_run_s"] = round(time.time() - t0, 1)
     tb = ["Coq 8.16.1 kernel; vm_compute for the Example", "axioms under Print Assumptions: " + (", ".join(sorted(axioms)) or "none (Closed under the global context)"),
-          "extraction: ExtrOcamlBasic only; OCaml 4.13.1", "lib/modgen.py (generator, independent X.680 tagging), lib/widegen.py, harness/moddrv.c (the rt battery is the property evaluated in C), gcc + ASan/UBSan",
+          "extraction: ExtrOcamlBasic only; OCaml 4.13.1", "lib/modgen.py (generator, independent X.680 tagging), lib/widefind.py (wide generator, classifier predicates of the known findings), harness/moddrv.c + harness/moddrv_wide.inc (the rt/wrt battery is the property evaluated in C; deep constraint walk; value-level facts), gcc + ASan/UBSan",
           "values of the wide layer come from the library's own asn_random_fill"]
     return run.finish("proof", (nthm, ndis), trusted_base=tb,
                       checker_cmd="make -C /verif all && coqc -Q coq A1 coq/Props/Properties_C01.v",
-                      extra_cov={"theorems": names, "modules": len(mods), "wide_modules": len(wmods),
+                      extra_cov={"theorems": names, "modules": len(mods), "wide_modules": len(wmods), "wide_times": TIMES,
                                  "rule": "one case = one driver command (round-trip battery over 5 syntaxes, decoder on model bytes, or one transcoding chain); distinct command lines",
                                  "traces_validated_against_impl": run.cov["evaluations"]},
                       assumptions=["theorems cover DER/BER of the modelled algebra; UPER/OER/XER round trips and all types outside the algebra are covered by the tie only (partial)",
-                                   "wide-layer values are those asn_random_fill produces"])
+                                   "wide-layer values are those asn_random_fill produces that pass every constraint function at every node (integers within +-65537 or at a bound, 33 fixed REALs, a few times)"])
 
 
 if __name__ == "__main__":
